@@ -9,7 +9,7 @@ import checks.pkt as PK
 
 TRACE = PK.TRACE
 CHECKER = PK.CHECKER + '; generator: Setup_MC.tla with Setup_MC_{sizes,shapes,mutations}.cfg'
-C01_RULES = PK.C01_RULES | {'Locality', 'LocalityCount', 'PacketBitsConsumed', 'SameSpectrumSamePcm', 'FloorPostsAsSpecified', 'FloorCurveAsSpecified'}
+C01_RULES = PK.C01_RULES | {'Locality', 'LocalityCount', 'PacketBitsConsumed', 'SameSpectrumSamePcm', 'FloorPostsAsSpecified', 'FloorCurveAsSpecified', 'ResidueAsSpecified', 'CouplingAsSpecified'}
 
 def gen_cases(families=('sizes', 'shapes', 'mutations', 'residue')):
     out = {}; stats = dict(states=0, transitions=0, runs={})
@@ -51,6 +51,8 @@ def scn_from_case(rng, fam, i, c, nrand=3):
     k = 0
     for a in c['audio']:
         probe = (f"fx={','.join(map(str, a['fit']))} yx={','.join(map(str, a['yc']))} " if a.get('fit') else '')
+        if a.get('rv') and len(a['rv']) <= 4 and len(a['rv'][0]) <= 256:
+            probe += 'rx=' + '/'.join(','.join(map(str, ch)) for ch in a['rv']) + ' cx=' + '/'.join(','.join(map(str, ch)) for ch in a['cv']) + ' '
         ls.append(f"saud 0 {k} {a['W']} -1 0 {'ns ' if a.get('ns') else ''}{probe}{toks(a['f'])}"); k += 1
     for j in range(nrand if fam != 'books' else 1):
         ls.append(f'srand 0 {k} {rng.randrange(1 << 30)} {rng.choice([1, 2, 7, 40, 300])} -1'); k += 1
@@ -65,9 +67,10 @@ def scn_from_case(rng, fam, i, c, nrand=3):
         for k2, (a, b) in enumerate(zip(c['audio'], tw['audio'])):
             ls2 += [f"saud 0 {k2} {a['W']} -1 0 ns {toks(a['f'])}", f"saud 1 {k2} {b['W']} -1 0 ns {toks(b['f'])}", 'stwin 0 1']
         ls2 += ['pclr 0 bdci', 'pclr 1 bdci']
-        return Scn(f"{fam}-{i}-twin-{c['ch']}ch-{bs0}-{bs1}", ls2, 'synthetic-residue-twins', budget=20, cost=20)
+        return Scn(f"{fam}-{i}-twin-res{'x'.join(map(str, c.get('res', [])))}-{c['ch']}ch-{bs0}-{bs1}", ls2, 'synthetic-residue-twins', budget=20, cost=20)
     ls += ['plap 0', 'prest 0', 'pclr 0 bdci', 'pclr 0 bdci']
-    return Scn(f"{fam}-{i}-{c['name']}-{c['ch']}ch-{bs0}-{bs1}", ls, 'synthetic-' + fam, budget=20, cost=10 + c['ch'] // 4)
+    tag = ('-res' + 'x'.join(map(str, c['res']))) if fam == 'residue' and c.get('res') else ''
+    return Scn(f"{fam}-{i}-{c['name']}{tag}-{c['ch']}ch-{bs0}-{bs1}", ls, 'synthetic-' + fam, budget=20, cost=10 + c['ch'] // 4)
 
 def build_scenarios(rng, cases, nrand):
     scns = []
